@@ -108,7 +108,7 @@ def observe(d, ids):
     return o
 
 
-def replay(snap):
+def replay_hist(snap):
     ids = IdMap()
     regs = {}
     out = 'ok'
@@ -138,7 +138,7 @@ def expected(snap):
 
 
 def check(ctx, snap, where):
-    got, exp = replay(snap), expected(snap)
+    got, exp = replay_hist(snap), expected(snap)
     ctx.evals += 1; ctx.traces += 1
     ops = [h['op'] for h in snap['hist']]
     if len(set(ops)) >= 2:
@@ -289,3 +289,20 @@ def run(ctx):
     ctx.assumptions += ['column order is not part of the model (columns compared as sets)',
                         'd + None and dictable.concat(d) return their operand (named deviations AddNone / ConcatOne: aliases, not copies)',
                         'rename onto an existing column, masks of the wrong length and cell mutation through returned lists are outside the domain']
+
+
+def replay(ctx, body):
+    """re-execute the recorded history; S2C cases are compared with the stored expectation, recorded ones re-validated by TLC"""
+    case = body['case']
+    if case.get('source') == 'c2s':
+        ids = IdMap(); regs = {}; events = []
+        for k, e in enumerate(case['hist']):
+            e = {kk: v for kk, v in e.items() if kk != 'out'}
+            e['out'] = step(regs, e, ids, k); e['post'] = post(regs, ids); events.append(e)
+        bad = ctx.validate('Trace_Dictable', [{'events': events}])
+        print('replay:', 'REJECTED %s' % bad if bad else 'accepted')
+        return 1 if bad else 0
+    got = replay_hist({'hist': case['hist']})
+    exp = body['detail']['expected']
+    print('replay:', 'state differs from the specification' if got != exp else 'state equals the specification')
+    return 1 if got != exp else 0
